@@ -415,9 +415,11 @@ class DataOps:
                 listed = listed + [ab]             # a value no item carries selects nothing (whatever it would truncate to)
                 self.ctx.probe('absent_value_in_list')
         arg = chosen[0] if (len(chosen) == 1 and o['flag'] and len(listed) == 1) else (np.array(listed) if o['flag2'] else list(listed))
+        guard = self.pool.plain_guard('subset_' + axis, value=arg)
         try:
             res = getattr(obj, 'subset_' + axis)(by, arg)
         except Exception as e:
+            guard('raised')
             return self._raise('subset_' + axis, e)
         sem = None
         if src.sem is not None:
@@ -425,6 +427,7 @@ class DataOps:
             key = 'rows' if axis == 'obs' else 'cols'
             sem[key] = [tok for tok, v in zip(src.sem[key], vals) if v in chosen]
         self._finish('subset_' + axis, [(res, sem)], [src.sid], sig=(src.op, by))
+        guard()
 
     def op_subset_obs(self, o):
         return self._subset(o, 'obs')
@@ -704,9 +707,11 @@ class DataOps:
         if len({len(b) for b in bins}) == 1 and o['a'][2] % 2:
             bins = np.array(bins)          # equal-sized bins as one 2-D array
         extra = [k for k in src.obj.time_descriptors if k != 'time']
+        guard = self.pool.plain_guard('bin_time', bins=bins, **({'bin0': bins[0]} if isinstance(bins, list) else {}))
         try:
             res = src.obj.bin_time('time', bins)
         except Exception as e:
+            guard('raised')
             if extra:
                 return self._raise('bin_time:extra-time-descriptors', e)
             return self._raise('bin_time', e)
@@ -717,6 +722,7 @@ class DataOps:
         s.parent_dtype = np.zeros(0, dtype=src.obj.measurements.dtype)     # means of float32 data carry float32 rounding
         self._check_binned(s, present)
         self.pool.sweep('bin_time', args=[src.sid], produced=[s.sid])
+        guard()
         self.ctx.behaviour('bin_time', len(groups), o['flag'], o['flag2'])
 
     def _check_binned(self, slot, bins):
